@@ -242,6 +242,32 @@ def index_scenarios(nruns=3, jobs=(1, 2), endings=("ok", "raise"), wait_before_r
     return out
 
 
+def index_mode_scenarios(jobs=(1, 2)):
+    """Histories of two NORMAL runs (each a subset of the jobs, ending normally or by an exception) followed by a run of the same
+    experiment in DRY_RUN or GENERATE_ONLY mode that ends normally: such a run neither moves nor writes the index, and must leave what
+    the earlier runs left (in particular the backup of an aborted run)."""
+    subsets = [c for r in range(len(jobs) + 1) for c in itertools.combinations(jobs, r)]
+    actions = [(s, e) for s in subsets for e in ("ok", "raise")]
+    out = []
+    for hist in itertools.product(actions, repeat=2):
+        for mode in ("DRY_RUN", "GENERATE_ONLY"):
+            for sub3 in ((), jobs[:1], jobs):
+                ops, runs = [], []
+                for ri, (sub, end) in enumerate(hist):
+                    body = [J(f"r{ri}v{x}", x) for x in sub]
+                    if end == "raise":
+                        body += [{"op": "waitxp"}, {"op": "raise"}]
+                    ops.append(XP("x", body, catch=True))
+                    ops.append({"op": "index", "name": "x"})
+                    runs.append({"jobs": list(sub), "end": end})
+                ops.append(dict(XP("x", [J(f"r2v{x}", x) for x in sub3], catch=True), mode=mode))
+                ops.append({"op": "index", "name": "x"})
+                runs.append({"jobs": list(sub3), "end": "ok", "mode": mode})
+                name = "idxmode:" + "|".join(f"{''.join(map(str, s)) or '-'}{'!' if e == 'raise' else ''}" for s, e in hist) + f"|{mode}:{''.join(map(str, sub3)) or '-'}"
+                out.append(sc(name, "index:mode", [ops], history={"p1": runs}))
+    return out
+
+
 def index_kill_scenarios():
     """A completed run, then a run killed at every scheduling point, then the index is examined by a fresh process
     (which also runs the experiment again, normally)."""
